@@ -289,7 +289,15 @@ func c15Extra(e *Engine, pc *PropertyCheck) {
 			pc.Outcomes = append(pc.Outcomes, po)
 		}
 	}
-	// migration-only functions: no transitive caller is a message handler, block hook or module hook
+	for fn := range migration {
+		e.migrationOnlyScan(pc, fn, "C15")
+	}
+	pc.Extra["supply_sites"] = listing
+	pc.Extra["module_account_permissions"] = perms
+}
+
+// migrationOnlyScan: no transitive caller of fn is a message handler, block function or hook.
+func (e *Engine) migrationOnlyScan(pc *PropertyCheck, fn *ssa.Function, prop string) {
 	f := e.Frames()
 	rev := map[*ssa.Function][]*ssa.Function{}
 	for caller, callees := range f.edges {
@@ -301,42 +309,38 @@ func c15Extra(e *Engine, pc *PropertyCheck) {
 	for _, h := range e.msgHandlers() {
 		handlers[h.fn] = true
 	}
-	for fn := range migration {
-		key := shortPkg(fn) + "." + sym.FuncKey(fn)
-		seen := map[*ssa.Function]bool{fn: true}
-		work := []*ssa.Function{fn}
-		var bad []string
-		inMigration := false
-		for len(work) > 0 {
-			x := work[len(work)-1]
-			work = work[:len(work)-1]
-			for _, c := range rev[x] {
-				c = rootFn(c)
-				if seen[c] {
-					continue
-				}
-				seen[c] = true
-				p := pkgOfFn(c)
-				if strings.Contains(p, "/migrations") {
-					inMigration = true
-					continue // callers of migrations are the upgrade handlers
-				}
-				n := c.Name()
-				if handlers[c] || strings.Contains(n, "BeginBlock") || strings.Contains(n, "EndBlock") || strings.Contains(n, "PreBlock") ||
-					strings.HasPrefix(n, "After") || strings.HasPrefix(n, "Before") || strings.Contains(n, "Hook") {
-					bad = append(bad, shortPkg(c)+"."+sym.FuncKey(c))
-				}
-				work = append(work, c)
+	key := shortPkg(fn) + "." + sym.FuncKey(fn)
+	seen := map[*ssa.Function]bool{fn: true}
+	work := []*ssa.Function{fn}
+	var bad []string
+	inMigration := false
+	for len(work) > 0 {
+		x := work[len(work)-1]
+		work = work[:len(work)-1]
+		for _, c := range rev[x] {
+			c = rootFn(c)
+			if seen[c] {
+				continue
 			}
+			seen[c] = true
+			p := pkgOfFn(c)
+			if strings.Contains(p, "/migrations") {
+				inMigration = true
+				continue // callers of migrations are the upgrade handlers
+			}
+			n := c.Name()
+			if handlers[c] || strings.Contains(n, "BeginBlock") || strings.Contains(n, "EndBlock") || strings.Contains(n, "PreBlock") ||
+				strings.HasPrefix(n, "After") || strings.HasPrefix(n, "Before") || strings.Contains(n, "Hook") {
+				bad = append(bad, shortPkg(c)+"."+sym.FuncKey(c))
+			}
+			work = append(work, c)
 		}
-		o := &Outcome{Name: key + "/C15/reachable-only-from-migrations", Func: key, Kind: "scan", Status: "discharged", Detail: fmt.Sprintf("%d transitive callers, none a message handler, block function or hook; called from a migration: %v", len(seen)-1, inMigration)}
-		if len(bad) > 0 {
-			sort.Strings(bad)
-			o.Status = "failed"
-			o.Detail = "reachable from " + strings.Join(bad, ", ")
-		}
-		pc.Outcomes = append(pc.Outcomes, o)
 	}
-	pc.Extra["supply_sites"] = listing
-	pc.Extra["module_account_permissions"] = perms
+	o := &Outcome{Name: key + "/" + prop + "/reachable-only-from-migrations", Func: key, Kind: "scan", Status: "discharged", Detail: fmt.Sprintf("%d transitive callers, none a message handler, block function or hook; called from a migration: %v", len(seen)-1, inMigration)}
+	if len(bad) > 0 {
+		sort.Strings(bad)
+		o.Status = "failed"
+		o.Detail = "reachable from " + strings.Join(bad, ", ")
+	}
+	pc.Outcomes = append(pc.Outcomes, o)
 }
